@@ -12,8 +12,10 @@ from .vector_algebra import _XYZ
 _BoundXYZ_1 = TypeVar("_BoundXYZ_1", bound=_XYZ)
 _BoundXYZ_2 = TypeVar("_BoundXYZ_2", bound=_XYZ)
 
-#: Maximum distance used to bound calculations of smallest distance
-MAX_DISTANCE = 1e6
+#: Maximum distance used to bound calculations of smallest distance.
+#: It is compared with *squared* distances, so a finite value such as 1e6
+#: silently limited the search to 1000 Angstrom.
+MAX_DISTANCE = math.inf
 
 
 def squared_distance(atom1: _XYZ, atom2: _XYZ) -> float:
